@@ -113,6 +113,15 @@ inspected.  Case kinds:
          Only a marker in column 0 is armor: every paragraph written must be there.  str and bytes sources (20 kinds), default
          and strict=False.  all_files_paragraphs() against what was written, files tuples, matches(), find_files_paragraph
          (last match)                                                  (M.pgp.order, M.pgp.files, M.pgp.find, M.match)
+  ubl    PARSED copyright files (str and bytes sources, 22 kinds; default and strict=False) whose multi-line Files field has
+         CONTINUATION LINES LED IN BY A UNICODE BLANK OTHER THAN SPACE / TAB: U+00A0, U+1680, U+2000..U+200A, U+202F, U+205F, U+3000
+         (no str.splitlines() boundaries), alone or mixed with a plain blank / tab / a second such character (blank then NBSP,
+         NBSP then blank, ...); first / middle / last continuation line, all of them or some; field line with or without a pattern.
+         Unchanged tree: a continuation line, its patterns belong to the field without the lead.  The CONTROL (the same lines led in
+         by one plain space) must parse to what was written.  all_files_paragraphs() and files tuples against what was written,
+         matches() for names covered ONLY by patterns on such lines (and for the same names with the lead in front), find_files_paragraph
+         last-match (later paragraphs whose only matching pattern stands on such a line must win); the same Files text as a Deb822
+         mapping given to FilesParagraph()          (M.ubl.ctl.order, M.ubl.order, M.ubl.files, M.ubl.find, M.ubl.map, M.match)
   raw    patterns with blanks / tabs / newlines, which cannot be
          written in a Files field: globs_to_re driven through the
          real FilesParagraph.matches of a subclass whose `files`
@@ -215,6 +224,18 @@ Mutants of these classes (repo tests still 234 passed), all exit 1, none seen by
   an indented '-----END PGP' line is taken for the end of the armor               the same keys
   marker also recognised behind 'Field: ' (search, (?:^|:[ \\t]*)-----..)            the same keys (the 12% quoted on the field line)
 (the module as it was before these classes held on all six: exit 0)
+
+Unchanged tree, Files continuation lines led in by a Unicode blank (probed before the class was added): Deb822._multidata is
+^\\s.. on the decoded str, so every White_Space character leads in a continuation line (str and bytes sources alike);
+_SpaceSeparated.from_str is str.split(), which drops the lead; Deb822.validate_input accepts such a value (str.isspace()).  The
+class is silent on the unchanged tree.  Mutants (repo tests still 234 passed), all exit 1; the module as it was before held on them:
+  deb822 _multidata = ^[ \\t](..)           (the line is dropped without a word)
+        matches-rejects-matching-name/files-field-continuation-line-led-by-unicode-blank/{str,bytes}-source/files-differs-..,
+        document-rejected-at-continuation-line-led-by-unicode-blank (Files field left empty), find resolving to the earlier paragraph
+  _SpaceSeparated.from_str = re.split('[ \\t\\r\\n]+')  (the lead stays glued to the pattern)
+        matches-rejects-.. / matches-accepts-.. with the same keys + ../files-text-with-unicode-blank-led-lines-given-as-mapping
+  _skip_useless_lines strips a leading NBSP from BYTES lines ("not a legal first character")
+        matches-rejects-matching-name/files-field-continuation-line-led-by-unicode-blank/bytes-source/.. only
 
 Mutants of this class tried on a scratch copy (repo tests still 234 passed):
   find caches list(all_files_paragraphs()) at first use          caught (find-misses-matching-paragraph, find-first-match-wins)
@@ -326,7 +347,19 @@ RULE = ('Seeded pattern lists (1..3, thorough 1..4 patterns of 1..5, thorough 1.
         '50% of the new pattern lists overlap an earlier one; 50% of the Files paragraphs sharing a short name also share the '
         'Copyright text; 30% carry the license text inline; 20% of the headers carry one of the short names; after the start and '
         'after EVERY add: the three listings, find_files_paragraph for 3..7 near-miss names, dump() - returned / to a file object - '
-        'then parse with the default and with strict=False through 6 source kinds).  '
+        'then parse with the default and with strict=False through 6 source kinds); '
+        'PARSED DOCUMENTS WHOSE MULTI-LINE Files FIELD HAS CONTINUATION LINES LED IN BY A UNICODE BLANK OTHER THAN SPACE / TAB that is no '
+        'str.splitlines() boundary (U+00A0, U+1680, U+2000..U+200A, U+202F, U+205F, U+3000): enumerated - every one of the 16 characters x '
+        'lead shape (the character alone; blank then it; it then blank; tab then it; it then tab; it then a second Unicode blank; it then '
+        'NBSP; for NBSP also the literal blank-then-NBSP / NBSP-then-blank) x str list / bytes list / StringIO / BytesIO, one seeded '
+        'document each, spread over the shards; one fixed document x 22 source kinds x strict / strict=False; random share (1..4, '
+        'thorough 1..6 Files paragraphs + License paragraphs; 25% realistic path globs, 55% of the later lists overlapping an earlier '
+        'one; one paragraph forced + 45% of the others carry such lines: field line with 0..1 patterns, 1..2 patterns per '
+        'continuation line, 1 / 2 / all continuation lines led in that way, 30% the last one; lead shape 6/14 the character alone, '
+        'else one of the mixed shapes; Files field first / last / in the middle of its paragraph; 22 source kinds str and bytes incl. '
+        'a whole str / bytes string; 35% strict=False; 12% no end of line after the last line; names: literal expansions of up to 5 '
+        'patterns that stand ON such lines, 25% of them once more with the lead put in front, + 4 near misses); each document also parsed '
+        'with those lines led in by ONE PLAIN SPACE (control), each such Files text also given to FilesParagraph() as a Deb822 mapping.  '
         'A (pattern list, name) evaluation is non-trivial when every pattern is legal, the list has '
         '>= 2 patterns or contains a wildcard, and the name is within edit distance 2 of a name the list matches '
         '(near miss or hit, not noise).')
@@ -486,7 +519,25 @@ ASSUMPTIONS = ['vp.models.globmatch is a faithful model of the copyright-format 
                'the strict=False parse is judged like the default one and gets the key suffix /parsed-with-strict=False when the '
                'default parse of the same text held; with an illegal escape in the document (3% of the cases) re-parsed and live '
                'answers are not compared; (e) FilesParagraph.create() not returning the list given is harness sanity here (judged '
-               'by the other classes); (f) the case stops at its first violation']
+               'by the other classes); (f) the case stops at its first violation',
+               'continuation lines of a Files field led in by a Unicode blank other than space / tab (kind ubl): (a) the statement does '
+               'not say which characters lead in a continuation line; the class judges what the UNCHANGED tree does (probed before the '
+               'class was added, all 16 characters x 6 lead shapes x 7 source kinds x strict / strict=False): such a line IS a '
+               'continuation line (Deb822._multidata starts with \\s on the DECODED line), its patterns belong to the field, and the '
+               'leading blank(s) are NOT part of the first pattern (str.split() of the field text) - the model is the list of patterns '
+               'written, without any lead; the same Files text given as a Deb822 mapping yields the same tuple; (b) only characters that '
+               'are White_Space AND no str.splitlines() boundary are used (U+0085, U+2028, U+2029, FS/GS/RS/US would split the line for '
+               'some source kinds: outside this class), never a line that consists of such blanks only, never such a blank BETWEEN two '
+               'patterns or behind the last one, never in front of a field name; (c) the CONTROL document (those lines led in by one plain '
+               'space; same source kind, same `strict`, same end-of-line choice) must parse to exactly what was written, otherwise the '
+               'case is inconclusive and nothing is accused; (d) a document that is rejected / shows other Files paragraphs is reported '
+               'with the key ...-at-continuation-line-led-by-unicode-blank; a files tuple that differs from what was written is not a '
+               'verdict by itself: the patterns that differ are turned into names and matches() / find_files_paragraph decide (key suffix '
+               '/files-differs-from-what-was-written), otherwise a note; (e) the mapping form is judged through matches() only '
+               '(M.ubl.map: FilesParagraph(Deb822({Files: text as written, ..}))); a mapping that does not ACCEPT the text (ValueError of '
+               'validate_input, format error) is a note, not a violation - what a mapping accepts is not the statement\'s subject; '
+               '(f) names that start with the lead itself are judged by the same model (a pattern list without leads does not match them '
+               'unless a wildcard does)']
 ANCHORS = ['debian.copyright:globs_to_re',
            'debian.copyright:FilesParagraph.files_pattern',
            'debian.copyright:FilesParagraph.matches',
@@ -512,6 +563,7 @@ SIZES = {
     'incr': (700, 24000),         # documents built incrementally with SHARED license short names: x ~6 adds x (listing + ~6 names + 2 re-parses)
     'enc': (700, 21000),          # BYTES documents with ONE line that is not valid UTF-8 + the same document with that line valid: x ~6 names x ~3 paragraphs x 2
     'pgp': (800, 24000),          # documents quoting PGP armor lines on continuation lines: x ~5 names x ~3 paragraphs
+    'ubl': (640, 20000),          # parsed documents whose Files continuation lines are led in by a Unicode blank + control parse + mapping: x ~7 names x ~3 paragraphs
 }
 
 LIT = ['a', 'a', 'a', 'b', 'b', 'c', 'A', '/', '/', '.']
@@ -1794,6 +1846,128 @@ def gen_pgp_case(r, wide):
 
 
 # ---------------------------------------------------------------------------
+# parsed documents whose multi-line Files field has continuation lines led in by a UNICODE BLANK other than space / tab
+# (kind 'ubl')
+
+# White_Space characters that are NOT str.splitlines() boundaries (so the line stays one line for every source kind)
+UBLANKS = ['\u00a0', '\u1680'] + [chr(c) for c in range(0x2000, 0x200b)] + ['\u202f', '\u205f', '\u3000']
+UBL_SHAPES = ['single', 'single', 'single', 'single', 'single', 'single', 'blank-then-nbsp', 'nbsp-then-blank', 'blank-then-unicode',
+              'unicode-then-blank', 'tab-then-unicode', 'unicode-then-tab', 'two-unicode', 'unicode-then-nbsp']
+UBL_SRCS = PGP_SRCS + ['str-whole', 'bytes-whole']
+
+
+def ubl_lead(r, shape, u=None):
+    u = u or r.choice(UBLANKS + ['\u00a0', '\u00a0', '\u3000', '\u2003', '\u202f'])
+    return {'single': u, 'blank-then-nbsp': ' \u00a0', 'nbsp-then-blank': '\u00a0 ', 'blank-then-unicode': ' ' + u,
+            'unicode-then-blank': u + ' ', 'tab-then-unicode': '\t' + u, 'unicode-then-tab': u + '\t',
+            'two-unicode': u + r.choice(UBLANKS), 'unicode-then-nbsp': u + '\u00a0'}[shape]
+
+
+def ubl_is_lead(s):
+    """A lead of this class: blanks / tabs / Unicode blanks with at least one Unicode blank in it."""
+    return bool(s) and all(ch in ' \t' or ch in UBLANKS for ch in s) and any(ch in UBLANKS for ch in s)
+
+
+def ubl_lines(paras, plain=False):
+    """Line bodies of the document; a Files paragraph with 'rows' = [[lead | None, [patterns]], ...] writes its Files field row
+    by row (lead None: the field line).  Returns (lines, [[line number, lead, Files paragraph number], ...] of the rows led in by
+    a Unicode blank).  plain=True: the CONTROL document, those rows led in by one plain space."""
+    lines, led, fj = ['Format: %s' % FORMAT, 'Upstream-Name: x'], [], -1
+    for i, p in enumerate(paras):
+        lines.append('')
+        if 'F' not in p:
+            lines.extend(para_lines(i, p))
+            continue
+        fj += 1
+        f = []
+        for lead, pats in p['rows']:
+            if lead is None:
+                f.append(('Files: ' + ' '.join(pats)) if pats else 'Files:')
+            else:
+                f.append((' ' if (plain and ubl_is_lead(lead)) else lead) + ' '.join(pats))
+        c, lic, fo = ['Copyright: c%d' % i], ['License: L%d' % i], p.get('fo', 0)
+        body = f + c + lic if fo == 0 else (c + lic + f if fo == 1 else c + f + lic + [' text %d' % i])
+        k0 = len(lines) + body.index(f[0])
+        for k, (lead, pats) in enumerate(p['rows']):
+            if lead is not None and ubl_is_lead(lead):
+                led.append([k0 + k, lead, fj])
+        lines.extend(body)
+    return lines, led
+
+
+def gen_ubl_case(r, wide, shape=None, u=None):
+    nf = r.choice((1, 2, 2, 3, 3, 4)) if not wide else r.choice((1, 2, 3, 3, 4, 5, 6))
+    realistic = r.random() < 0.25
+    paras, lists, hosts = [], [], []
+    force = r.randrange(nf)
+    for j in range(nf):
+        if r.random() < 0.3:
+            paras.append({'L': 1})
+        legal = [gl for gl in lists if gl.legal]
+        k = r.random()
+        if j == 0 and k < 0.3 and j != force:
+            pats = ['*']
+        elif realistic:
+            pats = r.sample(REAL_POOL, r.choice((2, 3, 4)))
+        elif legal and k < 0.55:
+            pats = overlapping_list(r, r.choice(legal), wide)[0]
+        else:
+            pats = gen_list(r, wide, illegal_ok=False)
+        host = j == force or r.random() < 0.45
+        if host:
+            while len(pats) < 2 or (len(pats) < 4 and r.random() < 0.4):
+                extra = r.choice(REAL_POOL) if realistic else gen_pattern(r, wide, illegal_ok=False)
+                if extra not in pats:
+                    pats = pats + [extra]
+        # rows: the field line carries 0..1 patterns (hosts) / everything; each continuation row 1..2 patterns
+        rows = []
+        if host:
+            rest = list(pats)
+            rows.append([None, [rest.pop(0)] if r.random() < 0.6 else []])
+            while rest:
+                n = 2 if (len(rest) >= 3 and r.random() < 0.3) else 1
+                rows.append([r.choice((' ', ' ', '\t', '  ')), rest[:n]])
+                rest = rest[n:]
+            cont = list(range(1, len(rows)))
+            pick = r.sample(cont, r.choice([1, 1, 2, len(cont)])) if len(cont) > 1 else cont
+            if r.random() < 0.3:
+                pick = sorted(set(pick) | {cont[-1]})           # the LAST pattern of the field stands on such a line
+            for q in pick:
+                rows[q][0] = ubl_lead(r, shape or r.choice(UBL_SHAPES), u)
+            hosts.append(len(lists))
+        else:
+            sep = r.choice((0, 0, 1, 2)) if len(pats) > 1 else 0
+            if sep == 0:
+                rows = [[None, list(pats)]]
+            else:
+                rows = [[None, [pats[0]] if sep == 1 else []]] + [[' ', [x]] for x in (pats[1:] if sep == 1 else pats)]
+        paras.append({'F': pats, 'rows': rows, 'fo': r.choice((0, 0, 1, 1, 2))})
+        lists.append(G.GlobList(pats))
+    if r.random() < 0.25:
+        paras.append({'L': 1})
+    lines, led = ubl_lines(paras)
+    # names: a literal expansion of a pattern that stands on a led line of every host (the name such a line alone may cover),
+    # the same with the lead put in front of it, near misses of all lists
+    names = []
+    for ln, lead, fj in led:
+        for pat in lines[ln][len(lead):].split(' ')[:2]:
+            nm = _literal_name(r, pat)
+            if nm is not None and nm not in names and len(names) < 5:
+                names.append(nm)
+                if r.random() < 0.25 and lead + nm not in names:
+                    names.append(lead + nm)
+    for nm in gen_names(r, lists, 4):
+        if nm not in names:
+            names.append(nm)
+    case = {'kind': 'ubl', 'src': r.choice(UBL_SRCS), 'paras': paras, 'names': names}
+    if r.random() < 0.35:
+        case['strict'] = False
+    if r.random() < 0.12:
+        case['final_eol'] = False
+    return case
+
+
+# ---------------------------------------------------------------------------
 # build histories (kind 'build')
 
 def escape_literal(name):
@@ -2313,6 +2487,36 @@ def cases(ctx):
     r = ctx.rng('pgp')
     for i in range(ctx.size(*SIZES['pgp'])):
         yield gen_pgp_case(r, wide)
+    # -- parsed documents whose multi-line Files field has continuation lines led in by a Unicode blank other than space / tab:
+    #    every blank of the class x every lead shape x str / bytes list sources (enumerated, spread over the shards), then random
+    r = ctx.rng('ubl-enum')
+    idx = 0
+    for u in UBLANKS:
+        for shape in sorted(set(UBL_SHAPES)):
+            if shape in ('blank-then-nbsp', 'nbsp-then-blank') and u != '\u00a0':
+                continue
+            for src in ('str-list', 'bytes-list', 'stringio', 'bytesio'):
+                idx += 1
+                case = gen_ubl_case(r, wide, shape=shape, u=u)
+                case['src'] = src
+                if ctx.mine(idx):
+                    yield case
+    if ctx.shard == 0:
+        for u in ('\u00a0',):
+            paras = [{'F': ['*'], 'rows': [[None, ['*']]], 'fo': 0},
+                     {'F': ['debian/*', 'src/a', '*.c', 'b?'], 'rows': [[None, ['debian/*']], [u, ['src/a']], [u, ['*.c', 'b?']]], 'fo': 0},
+                     {'L': 1},
+                     {'F': ['debian/rules', 'src/*.c', 'README'], 'rows': [[None, []], [' ', ['debian/rules']], [u + ' ', ['src/*.c']], [' ' + u, ['README']]], 'fo': 2}]
+            for src in sorted(set(UBL_SRCS)):
+                for strict in (True, False):
+                    case = {'kind': 'ubl', 'src': src, 'paras': paras,
+                            'names': ['src/a', 'a.c', 'bx', 'src/a.c', 'README', 'debian/rules', 'debian/x', u + 'src/a', 'src/a.in', 'x']}
+                    if not strict:
+                        case['strict'] = False
+                    yield case
+    r = ctx.rng('ubl')
+    for i in range(ctx.size(*SIZES['ubl'])):
+        yield gen_ubl_case(r, wide)
     # -- build histories through the public API (empty / parsed start, adds, re-assignments, queries, dump-then-parse)
     if ctx.shard == 0:
         yield {'kind': 'build', 'start': {'mode': 'empty', 'paras': []},
@@ -3705,6 +3909,164 @@ def run_pgp(ctx, case):
             ctx.count('pgp-find:resolves-to-paragraph-before-the-quote-although-files-paragraphs-follow')
 
 
+def _ubl_cp(lead):
+    return '+'.join(('U+%04X' % ord(ch)) if ch in UBLANKS else ('blank' if ch == ' ' else 'tab') for ch in lead)
+
+
+def _ubl_shape(lead):
+    kinds = ['unicode' if ch in UBLANKS else ('blank' if ch == ' ' else 'tab') for ch in lead]
+    if len(kinds) == 1:
+        return 'single-unicode-blank'
+    return '-then-'.join(kinds[:2]) + ('-..' if len(kinds) > 2 else '')
+
+
+def run_ubl(ctx, case):
+    """A parsed copyright document whose multi-line Files field has CONTINUATION LINES LED IN BY A UNICODE BLANK other than
+    space / tab (U+00A0, U+1680, U+2000..U+200A, U+202F, U+205F, U+3000; also blank-then-NBSP, NBSP-then-blank, ...).  On the
+    unchanged tree such a line is a continuation line and its patterns belong to the field, WITHOUT the leading blank(s).  The
+    CONTROL (the same document, those lines led in by one plain space) must parse to what was written, otherwise nothing is
+    judged.  Then: all_files_paragraphs() / files tuples against what was written (M.ubl.order, M.ubl.files), matches()
+    against the glob model (M.match), find_files_paragraph against the last-match rule (M.ubl.find); the Files text as
+    written, given as a Deb822 mapping to FilesParagraph(), must answer the same (M.ubl.map)."""
+    from debian import copyright as cp
+    from debian import deb822
+    paras, src, names = case['paras'], case['src'], list(case['names'])
+    strict = case.get('strict', True)
+    feol = case.get('final_eol', True)
+    ns = '' if strict else NS_SUFFIX
+    is_bytes = src.startswith(('bytes', 'disk-rb'))
+    stype = 'bytes-source' if is_bytes else 'str-source'
+    lines, led = ubl_lines(paras)
+    plain, _ = ubl_lines(paras, plain=True)
+    want_files = _written_files_view(paras)
+    want_tags = [t for t, _ in want_files]
+    want_lists = [G.GlobList(p['F']) for p in paras if 'F' in p]
+    rr = random.Random('ubl/%d/%d' % (len(lines), len(names)))
+    small = dict(case)
+    small['names'] = names[:1]
+    if not led:
+        ctx.inconclusive.append('generator: a ubl case without a continuation line led in by a Unicode blank: %r' % (lines,))
+        return
+
+    def parse(ls):
+        try:
+            return cmt_parse(ctx, ls, src, strict, feol, note='ubl')
+        except Exception as e:
+            return e
+
+    # --- the control: the same document, those lines led in by a plain space
+    ctx.mon('M.ubl.ctl.order')
+    cst = _tok_structure(parse(plain), want_tags)
+    if cst[0] != 'ok' or cst[1] != want_files:
+        ctx.count('ubl:note:control-document-does-not-parse-to-what-was-written')
+        ctx.inconclusive.append('ubl: the CONTROL document (plain-space continuation lines, source %s) does not parse to what was '
+                                'written: wrote %r, got %r' % (src, want_files, cst[1]))
+        return
+    ctx.count('ubl:documents')
+    ctx.count('ubl:source:%s' % src)
+    ctx.count('ubl:%s' % stype)
+    ctx.count('ubl:%s' % ('strict' if strict else 'strict=False'))
+    ctx.count('ubl:%s/%s' % (stype, 'strict' if strict else 'strict=False'))
+    if not feol:
+        ctx.count('ubl:no-end-of-line-after-last-line')
+    ctx.count('ubl:led-lines', len(led))
+    host_idx = sorted(set(fj for _, _, fj in led))
+    ctx.count('ubl:files-fields-with-led-lines', len(host_idx))
+    on_led = {}                                        # Files paragraph number -> patterns that stand on led lines
+    for ln, lead, fj in led:
+        first = lead[0]
+        ctx.count('ubl:lead-shape:%s' % _ubl_shape(lead))
+        for ch in sorted(set(lead)):
+            if ch in UBLANKS:
+                ctx.count('ubl:unicode-blank:U+%04X' % ord(ch))
+        ctx.count('ubl:first-character:%s' % ('U+%04X' % ord(first) if first in UBLANKS else ('blank' if first == ' ' else 'tab')))
+        ctx.count('ubl:line-starts-with-%s' % ('unicode-blank' if first in UBLANKS else 'plain-blank-or-tab'))
+        pats = lines[ln][len(lead):].split(' ')
+        on_led.setdefault(fj, []).extend(pats)
+        ctx.count('ubl:patterns-on-led-lines', len(pats))
+        nxt = lines[ln + 1] if ln + 1 < len(lines) else ''
+        prv = lines[ln - 1]
+        if prv.startswith('Files:'):
+            ctx.count('ubl:led-line-is-first-continuation-line' + ('/field-line-empty' if prv == 'Files:' else ''))
+        if nxt == '' or nxt[:1] not in (' ', '\t') and not ubl_is_lead(nxt[:1]):
+            ctx.count('ubl:led-line-is-last-line-of-the-field' + ('/and-of-the-paragraph' if nxt == '' else ''))
+        elif ubl_is_lead(nxt[:1]):
+            ctx.count('ubl:led-line-followed-by-led-line')
+        else:
+            ctx.count('ubl:led-line-followed-by-plain-continuation-line')
+    for fj in host_idx:
+        cont = sum(1 for lead, _ in [p for p in paras if 'F' in p][fj]['rows'][1:])
+        nled = sum(1 for _, _, j in led if j == fj)
+        ctx.count('ubl:field:%s' % ('all-continuation-lines-led' if nled == cont else 'led-and-plain-continuation-lines-mixed'))
+    if host_idx[-1] < len(want_lists) - 1:
+        ctx.count('ubl:documents-with-files-paragraphs-behind-the-led-field')
+
+    # --- the document itself
+    ctx.mon('M.ubl.order')
+    doc = parse(lines)
+    st = _tok_structure(doc, want_tags)
+    shown = [(ln, _ubl_cp(lead)) for ln, lead, _ in led]
+    if st[0] != 'ok':
+        ctx.violation(_lost_key(st, len(want_files), 'at-continuation-line-led-by-unicode-blank') + '/' + stype + ns,
+                      'Copyright(%s) over source %s %s; written were %r.  Continuation lines of a Files field are led in by a '
+                      'Unicode blank other than space / tab (line number, lead: %r); the same document with those lines led in by a '
+                      'plain space shows exactly the paragraphs written.  Document: %r'
+                      % ('' if strict else '..., strict=False', src,
+                         'raised ' + st[1] if st[0] == 'raised' else 'shows Files paragraphs %r' % (st[1],), want_files, shown, lines),
+                      small)
+        return
+    if st[2] != _written_ids(paras):
+        ctx.count('ubl:note:non-files-paragraphs-differ-from-written')
+    ctx.evaluations += max(0, len(names) - 1)
+    res, n = _judge_queries(ctx, case, doc, st, want_files, want_lists, names, rr, 'ubl', stype, 'M.ubl.files', 'M.ubl.find',
+                            'ubl-find', '/files-field-continuation-line-led-by-unicode-blank/' + stype + ns)
+    # --- the Files text as written, given as a Deb822 mapping
+    nmap = 0
+    fparas = [p for p in paras if 'F' in p]
+    for fj in host_idx:
+        p = fparas[fj]
+        text = '\n'.join((' '.join(pats) if lead is None else lead + ' '.join(pats)) for lead, pats in p['rows'])
+        try:
+            fp = cp.FilesParagraph(deb822.Deb822({'Files': text, 'Copyright': 'm%d' % fj, 'License': 'L'}), strict=strict)
+            got = tuple(fp.files)
+        except Exception as e:
+            # what a mapping accepts as a value is not the statement's subject
+            ctx.count('ubl:note:mapping-with-the-same-files-text-not-accepted:%s' % type(e).__name__)
+            continue
+        ctx.mon('M.ubl.map')
+        ctx.count('ubl:map:paragraphs')
+        gl = want_lists[fj]
+        mark = _viol_mark(ctx)
+        for name in names:
+            sm = dict(small)
+            sm['names'] = [name]
+            check_matches(ctx, fp, gl, name, sm)
+            ctx.count('ubl:map:matches-observed')
+        suffix = '/files-text-with-unicode-blank-led-lines-given-as-mapping'
+        if got != tuple(p['F']):
+            suffix += '/files-differs-from-what-was-written'
+            ctx.count('ubl:note:mapping-files-differs-from-what-was-written')
+        nmap += _viol_retag(ctx, mark, suffix)
+    if n or nmap:
+        return
+    for name, r_ in zip(names, res):
+        hits = [j for j, gl in enumerate(want_lists) if gl.matches(name)]
+        if not hits:
+            continue
+        j = hits[-1]
+        if j in on_led:
+            gl = want_lists[j]
+            others = [x for x in gl.patterns if x not in on_led[j]]
+            if not G.GlobList(others).matches(name) if others else True:
+                ctx.count('ubl-find:name-covered-only-by-patterns-on-led-lines')
+                if len(hits) >= 2:
+                    ctx.count('ubl-find:last-match-only-through-led-line-shadows-earlier-paragraph')
+            else:
+                ctx.count('ubl-find:resolves-to-led-field-through-other-pattern')
+        elif any(h in on_led for h in hits):
+            ctx.count('ubl-find:led-field-matches-but-later-paragraph-wins')
+
+
 def _para_ids(paragraphs):
     """Identify paragraphs by the unique id the generator put in them (Files:
     Copyright field; stand-alone License: synopsis).  The header is skipped."""
@@ -4685,6 +5047,8 @@ def run_case(ctx, case):
         run_enc(ctx, case)
     elif kind == 'pgp':
         run_pgp(ctx, case)
+    elif kind == 'ubl':
+        run_ubl(ctx, case)
     else:
         raise ValueError('unknown case kind %r' % kind)
 
@@ -5368,6 +5732,209 @@ for _t, _d in _R9_FLOORS.items():
         if 'nontrivial' in _d['LOWERED']:
             FLOORS[_t]['nontrivial'] = _d['LOWERED']['nontrivial']
 # <<< round-9 floors
+
+# >>> round-11 floors
+# Round-11 class: parsed documents whose Files continuation lines are led in by a Unicode blank other than space / tab ('ubl:*',
+# 'ubl-find:*', M.ubl.*).  quick: about half of the minimum over seeds 0-3 on the unchanged tree; thorough: NOT measured (time box) - 6 x the quick floor, i.e. ~25% of a quick-scaled estimate (the random share is 31 x the quick one, the enumerated share does not grow).
+# A run that never parses such a document, never sees one of the 16 characters / the lead shapes, never asks for a name that only a
+# pattern on such a line covers, or never builds the mapping form is INCONCLUSIVE, not held.
+_R11_FLOORS = {
+ 'quick': {'C': {'ubl-find:last-match-only-through-led-line-shadows-earlier-paragraph': 550,
+                 'ubl-find:led-field-matches-but-later-paragraph-wins': 220,
+                 'ubl-find:name-covered-only-by-patterns-on-led-lines': 1300,
+                 'ubl-find:resolves-to-led-field-through-other-pattern': 840,
+                 'ubl-find:several-paragraphs-match': 1200,
+                 'ubl:bytes-source': 290,
+                 'ubl:bytes-source/strict': 180,
+                 'ubl:bytes-source/strict=False': 100,
+                 'ubl:documents': 560,
+                 'ubl:documents-with-files-paragraphs-behind-the-led-field': 150,
+                 'ubl:field:all-continuation-lines-led': 530,
+                 'ubl:field:led-and-plain-continuation-lines-mixed': 370,
+                 'ubl:files-fields-with-led-lines': 930,
+                 'ubl:first-character:U+00A0': 210,
+                 'ubl:first-character:U+1680': 54,
+                 'ubl:first-character:U+2000': 47,
+                 'ubl:first-character:U+2001': 42,
+                 'ubl:first-character:U+2002': 44,
+                 'ubl:first-character:U+2003': 71,
+                 'ubl:first-character:U+2004': 47,
+                 'ubl:first-character:U+2005': 41,
+                 'ubl:first-character:U+2006': 43,
+                 'ubl:first-character:U+2007': 52,
+                 'ubl:first-character:U+2008': 50,
+                 'ubl:first-character:U+2009': 48,
+                 'ubl:first-character:U+200A': 53,
+                 'ubl:first-character:U+202F': 75,
+                 'ubl:first-character:U+205F': 49,
+                 'ubl:first-character:U+3000': 80,
+                 'ubl:first-character:blank': 210,
+                 'ubl:first-character:tab': 130,
+                 'ubl:lead-shape:blank-then-unicode': 210,
+                 'ubl:lead-shape:single-unicode-blank': 430,
+                 'ubl:lead-shape:tab-then-unicode': 130,
+                 'ubl:lead-shape:unicode-then-blank': 210,
+                 'ubl:lead-shape:unicode-then-tab': 120,
+                 'ubl:lead-shape:unicode-then-unicode': 270,
+                 'ubl:led-line-followed-by-led-line': 320,
+                 'ubl:led-line-followed-by-plain-continuation-line': 300,
+                 'ubl:led-line-is-first-continuation-line': 450,
+                 'ubl:led-line-is-first-continuation-line/field-line-empty': 220,
+                 'ubl:led-line-is-last-line-of-the-field': 470,
+                 'ubl:led-line-is-last-line-of-the-field/and-of-the-paragraph': 290,
+                 'ubl:led-lines': 1400,
+                 'ubl:line-starts-with-plain-blank-or-tab': 350,
+                 'ubl:line-starts-with-unicode-blank': 1000,
+                 'ubl:map:matches-observed': 6600,
+                 'ubl:map:paragraphs': 930,
+                 'ubl:matches-observed/bytes-source': 5000,
+                 'ubl:matches-observed/str-source': 4600,
+                 'ubl:no-end-of-line-after-last-line': 59,
+                 'ubl:patterns-on-led-lines': 1500,
+                 'ubl:source:bytes-buffered': 15,
+                 'ubl:source:bytes-gen': 12,
+                 'ubl:source:bytes-iter': 11,
+                 'ubl:source:bytes-list': 80,
+                 'ubl:source:bytes-list-noeol': 12,
+                 'ubl:source:bytes-tuple': 12,
+                 'ubl:source:bytes-whole': 13,
+                 'ubl:source:bytesio': 83,
+                 'ubl:source:disk-rb': 14,
+                 'ubl:source:disk-rb-raw': 11,
+                 'ubl:source:disk-text': 14,
+                 'ubl:source:str-gen': 16,
+                 'ubl:source:str-iter': 13,
+                 'ubl:source:str-list': 78,
+                 'ubl:source:str-list-noeol': 13,
+                 'ubl:source:str-tuple': 14,
+                 'ubl:source:str-whole': 11,
+                 'ubl:source:stringio': 86,
+                 'ubl:str-source': 250,
+                 'ubl:str-source/strict': 160,
+                 'ubl:str-source/strict=False': 91,
+                 'ubl:strict': 340,
+                 'ubl:strict=False': 200,
+                 'ubl:unicode-blank:U+00A0': 440,
+                 'ubl:unicode-blank:U+1680': 76,
+                 'ubl:unicode-blank:U+2000': 74,
+                 'ubl:unicode-blank:U+2001': 66,
+                 'ubl:unicode-blank:U+2002': 70,
+                 'ubl:unicode-blank:U+2003': 97,
+                 'ubl:unicode-blank:U+2004': 66,
+                 'ubl:unicode-blank:U+2005': 64,
+                 'ubl:unicode-blank:U+2006': 66,
+                 'ubl:unicode-blank:U+2007': 71,
+                 'ubl:unicode-blank:U+2008': 76,
+                 'ubl:unicode-blank:U+2009': 69,
+                 'ubl:unicode-blank:U+200A': 70,
+                 'ubl:unicode-blank:U+202F': 100,
+                 'ubl:unicode-blank:U+205F': 71,
+                 'ubl:unicode-blank:U+3000': 100},
+           'M': {'M.ubl.ctl.order': 560,
+                 'M.ubl.files': 1300,
+                 'M.ubl.find': 3800,
+                 'M.ubl.map': 930,
+                 'M.ubl.order': 560}},
+ 'thorough': {'C': {'ubl-find:last-match-only-through-led-line-shadows-earlier-paragraph': 3300,
+                    'ubl-find:led-field-matches-but-later-paragraph-wins': 1320,
+                    'ubl-find:name-covered-only-by-patterns-on-led-lines': 7800,
+                    'ubl-find:resolves-to-led-field-through-other-pattern': 5040,
+                    'ubl-find:several-paragraphs-match': 7200,
+                    'ubl:bytes-source': 1740,
+                    'ubl:bytes-source/strict': 1080,
+                    'ubl:bytes-source/strict=False': 600,
+                    'ubl:documents': 3360,
+                    'ubl:documents-with-files-paragraphs-behind-the-led-field': 900,
+                    'ubl:field:all-continuation-lines-led': 3180,
+                    'ubl:field:led-and-plain-continuation-lines-mixed': 2220,
+                    'ubl:files-fields-with-led-lines': 5580,
+                    'ubl:first-character:U+00A0': 1260,
+                    'ubl:first-character:U+1680': 324,
+                    'ubl:first-character:U+2000': 282,
+                    'ubl:first-character:U+2001': 252,
+                    'ubl:first-character:U+2002': 264,
+                    'ubl:first-character:U+2003': 426,
+                    'ubl:first-character:U+2004': 282,
+                    'ubl:first-character:U+2005': 246,
+                    'ubl:first-character:U+2006': 258,
+                    'ubl:first-character:U+2007': 312,
+                    'ubl:first-character:U+2008': 300,
+                    'ubl:first-character:U+2009': 288,
+                    'ubl:first-character:U+200A': 318,
+                    'ubl:first-character:U+202F': 450,
+                    'ubl:first-character:U+205F': 294,
+                    'ubl:first-character:U+3000': 480,
+                    'ubl:first-character:blank': 1260,
+                    'ubl:first-character:tab': 780,
+                    'ubl:lead-shape:blank-then-unicode': 1260,
+                    'ubl:lead-shape:single-unicode-blank': 2580,
+                    'ubl:lead-shape:tab-then-unicode': 780,
+                    'ubl:lead-shape:unicode-then-blank': 1260,
+                    'ubl:lead-shape:unicode-then-tab': 720,
+                    'ubl:lead-shape:unicode-then-unicode': 1620,
+                    'ubl:led-line-followed-by-led-line': 1920,
+                    'ubl:led-line-followed-by-plain-continuation-line': 1800,
+                    'ubl:led-line-is-first-continuation-line': 2700,
+                    'ubl:led-line-is-first-continuation-line/field-line-empty': 1320,
+                    'ubl:led-line-is-last-line-of-the-field': 2820,
+                    'ubl:led-line-is-last-line-of-the-field/and-of-the-paragraph': 1740,
+                    'ubl:led-lines': 8400,
+                    'ubl:line-starts-with-plain-blank-or-tab': 2100,
+                    'ubl:line-starts-with-unicode-blank': 6000,
+                    'ubl:map:matches-observed': 39600,
+                    'ubl:map:paragraphs': 5580,
+                    'ubl:matches-observed/bytes-source': 30000,
+                    'ubl:matches-observed/str-source': 27600,
+                    'ubl:no-end-of-line-after-last-line': 354,
+                    'ubl:patterns-on-led-lines': 9000,
+                    'ubl:source:bytes-buffered': 90,
+                    'ubl:source:bytes-gen': 72,
+                    'ubl:source:bytes-iter': 66,
+                    'ubl:source:bytes-list': 480,
+                    'ubl:source:bytes-list-noeol': 72,
+                    'ubl:source:bytes-tuple': 72,
+                    'ubl:source:bytes-whole': 78,
+                    'ubl:source:bytesio': 498,
+                    'ubl:source:disk-rb': 84,
+                    'ubl:source:disk-rb-raw': 66,
+                    'ubl:source:disk-text': 84,
+                    'ubl:source:str-gen': 96,
+                    'ubl:source:str-iter': 78,
+                    'ubl:source:str-list': 468,
+                    'ubl:source:str-list-noeol': 78,
+                    'ubl:source:str-tuple': 84,
+                    'ubl:source:str-whole': 66,
+                    'ubl:source:stringio': 516,
+                    'ubl:str-source': 1500,
+                    'ubl:str-source/strict': 960,
+                    'ubl:str-source/strict=False': 546,
+                    'ubl:strict': 2040,
+                    'ubl:strict=False': 1200,
+                    'ubl:unicode-blank:U+00A0': 2640,
+                    'ubl:unicode-blank:U+1680': 456,
+                    'ubl:unicode-blank:U+2000': 444,
+                    'ubl:unicode-blank:U+2001': 396,
+                    'ubl:unicode-blank:U+2002': 420,
+                    'ubl:unicode-blank:U+2003': 582,
+                    'ubl:unicode-blank:U+2004': 396,
+                    'ubl:unicode-blank:U+2005': 384,
+                    'ubl:unicode-blank:U+2006': 396,
+                    'ubl:unicode-blank:U+2007': 426,
+                    'ubl:unicode-blank:U+2008': 456,
+                    'ubl:unicode-blank:U+2009': 414,
+                    'ubl:unicode-blank:U+200A': 420,
+                    'ubl:unicode-blank:U+202F': 600,
+                    'ubl:unicode-blank:U+205F': 426,
+                    'ubl:unicode-blank:U+3000': 600},
+              'M': {'M.ubl.ctl.order': 3360,
+                    'M.ubl.files': 7800,
+                    'M.ubl.find': 22800,
+                    'M.ubl.map': 5580,
+                    'M.ubl.order': 3360}}}
+for _t, _d in _R11_FLOORS.items():
+    FLOORS[_t]['monitors'].update(_d['M'])
+    FLOORS[_t]['counters'].update(_d['C'])
+# <<< round-11 floors
 
 LEVEL_TEXT = ('Runtime monitoring: seeded hostile pattern lists and near-miss names (literal expansions of the patterns with '
               '0..2 single-character edits), bounded-exhaustive sweeps of small pattern/name spaces, parsed and built '
